@@ -96,7 +96,7 @@ class PF(T.P):
             return ('block', self.block())
         if t == 'if':
             s = self.if_stmt(); return ('ifexpr', s)
-        if t in ('unreachable', 'write') and self.peek(1) == '!':
+        if t in ('unreachable', 'write', 'debug_assert') and self.peek(1) == '!':
             name = self.next(); self.next(); self.expect('(')
             depth = 1; toks = []
             while depth:
@@ -110,6 +110,11 @@ class PF(T.P):
             if self.peek() == '{': return ('closure', v, ('block', self.block()))
             body = self.expr(); return ('closure', v, body)
         return super().atom()
+    def postfix(self):
+        e = super().postfix()
+        while self.peek() == 'as':
+            self.next(); ty = self.next(); e = ('cast', e, ty)
+        return e
     def match(self):
         self.expect('match'); scrut = self.expr_no_struct(); self.expect('{'); arms = []
         old = getattr(self, 'no_struct', False); self.no_struct = False
@@ -234,6 +239,10 @@ class EF(T.Emit):
                 v, body = args[0][1], args[0][2]
                 return '(option_map (fun %s => %s) %s)' % (T.ident(v), self.expr(body), self.expr(recv))
             if name == 'unwrap': raise Unsupported('.unwrap() outside a returned expression')
+        if k == 'cast':
+            if e[2] != 'u64' or self.ty(e[1]) != 'Z': raise Unsupported('cast %s' % e[2])
+            return '(cast_u64 %s)' % self.expr(e[1])
+        if k == 'call' and e[1] == 'Vec::new' and not e[2]: return '[]'
         if k == 'call':
             f, args = e[1], e[2]
             if f == 'std::cmp::max': return '(bmax %s %s)' % (self.expr(args[0]), self.expr(args[1]))
@@ -258,6 +267,8 @@ class EF(T.Emit):
     def compare(self, op, a, b):
         ta, tb = self.ty(a), self.ty(b); t = ta or tb
         x, y = self.expr(a), self.expr(b)
+        if t == 'Z':
+            return {'==': '(%s =? %s)%%Z', '<': '(%s <? %s)%%Z', '<=': '(%s <=? %s)%%Z', '>=': '(%s >=? %s)%%Z', '>': '(%s >? %s)%%Z'}[op] % (x, y)
         if t == 'N':
             return {'==': '(%s =? %s)', '!=': '(negb (%s =? %s))', '<': '(%s <? %s)', '<=': '(%s <=? %s)'}[op] % (x, y)
         if t == 'cmp':
@@ -368,6 +379,16 @@ class EF(T.Emit):
                 flds = {kk: '(%s %s)' % (kk, x) for kk in ('major', 'minor', 'patch', 'build', 'pre')}
                 flds[f] = '(%s %s ++ [%s])' % (f, x, self.expr(e[3][0]))
                 return '(let %s := (mkV %s %s %s %s %s) in\n  %s)' % (x, flds['major'], flds['minor'], flds['patch'], flds['build'], flds['pre'], self.stmts(rest, tail, k))
+            if e[0] == 'macro' and e[1] == 'debug_assert':
+                # debug_assert!(cond, "..", args): checked in the debug profile the harness is built with
+                if not self.panics: raise Unsupported('debug_assert! in a function translated without Panic')
+                toks = e[2]; depth = 0; cut = len(toks)
+                for i, t in enumerate(toks):
+                    if t in '([{': depth += 1
+                    elif t in ')]}': depth -= 1
+                    elif t == ',' and depth == 0: cut = i; break
+                cond = PF(toks[:cut]).expr()
+                return '(if %s then %s else Panic)' % (self.expr(cond), self.stmts(rest, tail, k))
             raise Unsupported('expression statement')
         if s[0] in ('if', 'iflet'): return self.stmt_if(s, rest, tail, k)
         if s[0] == 'for':
@@ -639,7 +660,7 @@ class EL(EF):
 # ------------------------------------------------------------------ the functions
 HEADER = """(* GENERATED by tools/translate_fn.py from /repo/src on every run -- do not edit *)
 From Semver Require Import Base Version Range RParse Loops LoopLemmas.
-From Coq Require Import Lia List.
+From Coq Require Import Lia List ZArith.
 Import ListNotations.
 (* fallback when the source was rewritten into another, equivalent shape: split on every atomic test *)
 Ltac src_atoms := repeat (cbn [andb orb negb bs_lower bs_upper predicate]; match goal with
@@ -667,6 +688,16 @@ def parse_block(text):
 def fn(src, header_re, env, panics=False):
     body = function_body(src, header_re)
     (stmts, tail), strings = parse_block(body)
+    if panics == 'hash':
+        # impl Hash: the sequence of `self.<field>.hash(state);` statements, as the tuple of what is fed to the hasher
+        e = EF(env, False, strings); fed = []
+        if tail is not None: raise Unsupported('hash() with a value')
+        for st in stmts:
+            x = st[1] if st[0] == 'expr' else None
+            if not (x and x[0] == 'method' and x[2] == 'hash' and x[3] == [('var', 'state')] and x[1][0] == 'field' and x[1][1] == ('var', 'self')):
+                raise Unsupported('a statement of hash() that is not `self.<field>.hash(state);`')
+            fed.append(e.expr(x[1]))
+        return '(' + ', '.join(fed) + ')'
     if panics in ('loops', 'loops_res'):
         e = EL(env, panics == 'loops_res', strings)
     else:
@@ -675,10 +706,22 @@ def fn(src, header_re, env, panics=False):
 
 LIB = os.path.join(os.environ.get('VERIF_REPO', '/repo'), 'src', 'lib.rs'); RNG = os.path.join(os.environ.get('VERIF_REPO', '/repo'), 'src', 'range.rs')
 SPLIT = 'repeat match goal with |- context [if ?c then _ else _] => destruct c eqn:? end'
+UNSIGNED = ('u8', 'u16', 'u32', 'u64', 'usize'); SIGNED = ('i8', 'i16', 'i32', 'i64', 'isize')
+def int_types(macro, allowed):
+    """the macro must be instantiated only at integer types of at most 64 bits of the expected signedness: for those `x as u64` is
+    the value modulo 2^64 (`cast_u64`), whatever the type"""
+    def check(src):
+        calls = re.findall(r'(?m)^' + macro + r'!\s*\(([^)]*)\)\s*;', src)
+        if not calls: raise Unsupported('no instantiation of %s!' % macro)
+        for c in calls:
+            for t in [x.strip() for x in c.split(',') if x.strip()]:
+                if t not in allowed: raise Unsupported('%s! instantiated at %s' % (macro, t))
+    return check
 def defs():
     V = {'self': 'version', 'other': 'version'}
     B = {'self': 'boundset', 'other': 'boundset', 'version': 'version'}
     R = {'self': 'range', 'other': 'range'}
+    Zs = {'major': 'Z', 'minor': 'Z', 'patch': 'Z', 'pre_release': 'Z'}
     return {
       'is_prerelease': (LIB, r'pub\s+fn\s+is_prerelease\s*\(&self\)\s*->\s*bool\s*\{', V, False,
           'Definition is_prerelease_src (self_ : version) : bool :=\n  %s.\n',
@@ -804,22 +847,42 @@ def defs():
       'print_ident': (LIB, r"impl\s+fmt::Display\s+for\s+Identifier\s*\{\s*fn\s+fmt\s*\(&self,\s*f:\s*&mut\s+fmt::Formatter<'_>\)\s*->\s*fmt::Result\s*\{", {'self': 'ident'}, 'loops',
           'Definition print_ident_src (self_ : ident) : str :=\n  let f : str := [] in\n  %s.\n',
           'Theorem print_ident_src_ok : forall i, print_ident_src i = print_ident i.\nProof. intros [n|s]; reflexivity. Qed.\n'),
+      'from3_unsigned': (LIB, r'(?s)macro_rules!\s*impl_from_unsigned_for_version\s*\{.*?fn\s+from\s*\(\(major,\s*minor,\s*patch\):\s*\(\$t,\s*\$t,\s*\$t\)\)\s*->\s*Self\s*\{', Zs, True,
+          'Definition from3_unsigned_src (major_ minor_ patch_ : Z) : res version :=\n  %s.\n',
+          'Theorem from3_unsigned_src_ok : forall a b c, from3_unsigned_src a b c = Ok (from3 a b c).\nProof. reflexivity. Qed.\n', int_types('impl_from_unsigned_for_version', UNSIGNED)),
+      'from4_unsigned': (LIB, r'(?s)macro_rules!\s*impl_from_unsigned_for_version\s*\{.*?fn\s+from\s*\(\(major,\s*minor,\s*patch,\s*pre_release\):\s*\(\$t,\s*\$t,\s*\$t,\s*\$t\)\)\s*->\s*Self\s*\{', Zs, True,
+          'Definition from4_unsigned_src (major_ minor_ patch_ pre_release_ : Z) : res version :=\n  %s.\n',
+          'Theorem from4_unsigned_src_ok : forall a b c d, from4_unsigned_src a b c d = Ok (from4 a b c d).\nProof. reflexivity. Qed.\n', int_types('impl_from_unsigned_for_version', UNSIGNED)),
+      'from3_signed': (LIB, r'(?s)macro_rules!\s*impl_from_signed_for_version\s*\{.*?fn\s+from\s*\(\(major,\s*minor,\s*patch\):\s*\(\$t,\s*\$t,\s*\$t\)\)\s*->\s*Self\s*\{', Zs, True,
+          'Definition from3_signed_src (major_ minor_ patch_ : Z) : res version :=\n  %s.\n',
+          'Theorem from3_signed_src_ok : forall a b c, (0 <= a)%Z -> (0 <= b)%Z -> (0 <= c)%Z -> from3_signed_src a b c = Ok (from3 a b c).\n'
+          'Proof. intros a b c Ha Hb Hc. unfold from3_signed_src. repeat match goal with |- context [(?x >=? 0)%Z] => replace (x >=? 0)%Z with true by (symmetry; apply Z.geb_le; lia) end. reflexivity. Qed.\n', int_types('impl_from_signed_for_version', SIGNED)),
+      'from4_signed': (LIB, r'(?s)macro_rules!\s*impl_from_signed_for_version\s*\{.*?fn\s+from\s*\(\(major,\s*minor,\s*patch,\s*pre_release\):\s*\(\$t,\s*\$t,\s*\$t,\s*\$t\)\)\s*->\s*Self\s*\{', Zs, True,
+          'Definition from4_signed_src (major_ minor_ patch_ pre_release_ : Z) : res version :=\n  %s.\n',
+          'Theorem from4_signed_src_ok : forall a b c d, (0 <= a)%Z -> (0 <= b)%Z -> (0 <= c)%Z -> (0 <= d)%Z -> from4_signed_src a b c d = Ok (from4 a b c d).\n'
+          'Proof. intros a b c d Ha Hb Hc Hd. unfold from4_signed_src. repeat match goal with |- context [(?x >=? 0)%Z] => replace (x >=? 0)%Z with true by (symmetry; apply Z.geb_le; lia) end. reflexivity. Qed.\n', int_types('impl_from_signed_for_version', SIGNED)),
+      'hash_key': (LIB, r'impl\s+std::hash::Hash\s+for\s+Version\s*\{\s*fn\s+hash<H:\s*std::hash::Hasher>\s*\(&self,\s*state:\s*&mut\s+H\)\s*\{', V, 'hash',
+          'Definition hash_key_src (self_ : version) :=\n  %s.\n',
+          'Theorem hash_key_src_ok : forall v, hash_key_src v = hash_key v.\nProof. reflexivity. Qed.\n'),
     }
 USED_BY = {'is_prerelease': ['C03', 'C04'], 'version_eq': ['C04'], 'version_cmp': ['C04'], 'version_diff': ['C16'],
            'flip': ['C08'], 'predicate': ['C08'], 'at_least': ['C01'], 'at_most': ['C01'], 'exact': ['C01'],
            'bs_satisfies': ['C03', 'C06'], 'bs_allows_all': ['C10'], 'bs_allows_any': ['C09'], 'bs_intersect': ['C07'],
            'bs_difference': ['C08', 'C06'], 'bs_print': ['C13'], 'min_version': ['C11', 'C06'], 'max_satisfying': ['C14'], 'min_satisfying': ['C14'], 'r_satisfies': ['C03', 'C01'], 'r_allows_all': ['C10'], 'r_allows_any': ['C09'],
            'r_intersect': ['C07', 'C15'], 'r_difference': ['C08', 'C15', 'C06'],
-           'r_print': ['C13'], 'vprint': ['C12', 'C13'], 'partial_into': ['C01'], 'print_ident': ['C12']}
+           'r_print': ['C13'], 'vprint': ['C12', 'C13'], 'partial_into': ['C01'], 'print_ident': ['C12'],
+           'from3_unsigned': ['C18'], 'from4_unsigned': ['C18'], 'from3_signed': ['C18'], 'from4_signed': ['C18'], 'hash_key': ['C04']}
 
 def run(only=None):
     os.makedirs(GEN, exist_ok=True)
     status = {}; cache = {}; jobs = []
-    for name, (path, hdr, env, panics, dfmt, thm) in defs().items():
+    for name, spec in defs().items():
+        (path, hdr, env, panics, dfmt, thm) = spec[:6]; pre = spec[6] if len(spec) > 6 else None
         if only is not None and name not in only: continue
         out = os.path.join(GEN, 'Fn_%s.v' % name)
         try:
             if path not in cache: cache[path] = open(path).read()
+            if pre: pre(cache[path])
             body = fn(cache[path], hdr, env, panics)
             thname = re.search(r'Theorem (\w+)', thm).group(1)
             m_ = re.search(r'Proof\.(.*)Qed\.', thm, re.S)
